@@ -55,11 +55,33 @@ chk("C11", "exploration",
     "Strings given to the API are valid UTF-8 and numbers finite; float extraction means nearest float; duplicate keys must be refused; strtod is the numeric reference.",
     "runtime oracle: generator-with-expected-tree, strict RFC recogniser, round-trip fixpoint, ASan/UBSan, libFuzzer", "DESIGN.md section 4 / C11", "json_mon")
 
+chk("C07", "exploration",
+    "Every operation sequence to depth 4 (quick) / 5 (thorough) over a 21-symbol alphabet on the thread-shared cache (one level less on the process-shared one), long random histories over large alphabets, "
+    "shared-memory pressure runs and cache_interface frame building with nested trigger recorders; after every operation fetch results, stats() and a complete dump obtained through a guarded hook under the "
+    "cache's own exclusive lock (with index-consistency invariants) are compared with an executable reference model under a virtual clock. Found and fixed: a store failing for lack of shared memory left the superseded value.",
+    "Trusts the reference model and the dump hook; page-level store_page/fetch_page needs an HTTP context and is covered by the C03 monitor once built.",
+    "runtime monitor: step-wise reference model + invariant hook over exhaustive small and long random histories, ASan/UBSan/LSan", "DESIGN.md section 4 / C07", "cache_mon")
+
+chk("C08", "exploration",
+    "Limits 1..8 on both back ends with key alphabets larger than the limit: each store is judged by the eviction transition relation computed from hook dumps before and after (exactly as many victims as needed, "
+    "expired before live, live victims = tail of the live LRU order), entry/trigger counts equal the model's, LRU order of live entries equals the model's; process-shared fill/clear/refill cycles with values up to a "
+    "third of the segment check that free memory returns (within allocator rounding) after every clear; thread-shared runs under LeakSanitizer.",
+    "Victim choice among several expired entries is free; under genuine shared-memory pressure (reported by the hook) extra evictions, dropped stores or a full clear are accepted.",
+    "runtime monitor: transition-relation oracle + conservation invariant at a hook, ASan/UBSan/LSan", "DESIGN.md section 4 / C08", "cache_mon")
+
+chk("C09", "exploration",
+    "2..8 threads x random operation mixes on one thread-shared cache with seeded yield points, under ThreadSanitizer (race reports and lock-order inversions are violations) and ASan; histories recorded at the "
+    "client boundary with unique values are checked offline: sound stale/torn/foreign-read conditions on long histories, full linearizability (WGL search with memoisation) on short ones, progress watchdog for completion.",
+    "Race freedom is claimed for the operations and interleavings TSan observed (happens-before generalises over schedules, not over code paths); linearizability only for the short histories searched.",
+    "ThreadSanitizer + offline linearizability checker over recorded histories", "DESIGN.md section 4 / C09", "cache_conc")
+
 ENGINES = [
     dict(name="check", path="check", kind_free_text="python3 driver: builds flavors from /repo's working tree, runs monitors in parallel, known-findings matching, evidence"),
     dict(name="utf_mon", path="harness/utf_mon.cpp", serves_properties=["C14"], kind_free_text="in-process monitor, reference decoder oracle"),
     dict(name="xss_mon", path="harness/xss_mon.cpp", serves_properties=["C04"], kind_free_text="in-process monitor with independent lenient HTML tokenizer; libFuzzer target xss_fuzz"),
     dict(name="json_mon", path="harness/json_mon.cpp", serves_properties=["C11"], kind_free_text="in-process monitor; libFuzzer target json_fuzz"),
+    dict(name="cache_mon", path="harness/cache_mon.cpp", serves_properties=["C07", "C08"], kind_free_text="in-process monitor: reference model, eviction relation, dump hook, virtual clock"),
+    dict(name="cache_conc", path="harness/cache_conc.cpp", serves_properties=["C09"], kind_free_text="multi-threaded history recorder + L1 conditions + WGL linearizability checker (tsan and asan flavors)"),
     dict(name="codec_mon", path="harness/codec_mon.cpp", serves_properties=["C15"], kind_free_text="in-process monitor, inverse-function oracles"),
     dict(name="crypto_mon", path="harness/crypto_mon.cpp", serves_properties=["C16"], kind_free_text="in-process differential monitor against libgcrypt"),
     dict(name="ser_mon", path="harness/ser_mon.cpp", serves_properties=["C19"], kind_free_text="in-process monitor, shadow reader; also libFuzzer target ser_fuzz"),
